@@ -39,6 +39,9 @@ Print Assumptions C02_checker_nonvacuous.
    split_by_value, split_by_group, start_new_flow, call_webhook, transfer_airtime, go_to, no_op (forwarding and
    decision), hard_exit, loose_exit, begin_block/end_block (nested); conditional edges from action rows (implicit
    routers and waits), re-targeting, anonymous rows, blank `from`; the first row is a node row.
+   `reads_same`: the code of this run reads the padding entries of the row (blank edges.N.* cells of a rectangular
+   sheet) as the reference does, i.e. not as edges; part of edge_ok: it compiles a has_group test of the edge as
+   the reference reads it, [_, group name] (both decided below by the probed constants of Gen/Tables.v).
    NOT in the fragment (what is missing for the full statement compile_refines_rowsem): named categories on edges
    (condition_name), split_random rows, node names / given `_nodeId`s (merged rows).  For those the statement is
    decided per sheet by the verified checker (translation validation, C02_sim_check_sound). *)
@@ -46,15 +49,28 @@ Theorem C02_compile_refines_rowsem_partial : forall fresh,
   (forall a b : nat, fresh a = fresh b -> a = b) -> (forall k, fresh k <> hard_exit_sentinel) ->
   forall validate name rows f ref,
   (forall us, validate us = None -> NoDup us) ->
-  Forall row_ok rows -> no_given rows -> starts_with_node rows ->
+  Forall row_ok rows -> Forall reads_same rows -> no_given rows -> starts_with_node rows ->
   compile_with fresh validate name rows = Ok f -> rowsem nab (map cr_row rows) = Some ref ->
   (forall t, traces ref t -> exists t', traces f t' /\ Forall2 (ematch sexp smatch) t t')
   /\ (forall t, traces f t -> exists t', traces ref t' /\ Forall2 (ematch sexp (fun a b => smatch b a)) t t').
 Proof. exact compile_refines_rowsem_partial. Qed.
 Print Assumptions C02_compile_refines_rowsem_partial.
 
+(* decided for the code of this run: where does it read rows as the reference does?  With the repairs a05766f and
+   f02a865 (and the has_group repair of NoOpNodeGroup.add_exit, a candidate patch) everywhere; before them only
+   in rows without padding entries / in conditions that are not has_group tests. *)
+Theorem C02_reading_agrees_decided :
+  (if padding_edges_dropped_at_read then forall cr, reads_same cr
+   else forall cr, no_paddingb (r_edges (cr_row cr)) = true -> reads_same cr)
+  /\ (if has_group_edges_by_name && has_group_by_name_from_noop
+      then forall c, row_args c = ref_args c /\ noop_args c = ref_args c
+      else forall c, has_group_typed c = false -> row_args c = ref_args c /\ noop_args c = ref_args c).
+Proof. exact reading_agrees_decided. Qed.
+Print Assumptions C02_reading_agrees_decided.
+
 (* the boolean test the harness evaluates on every generated sheet is sound for the hypotheses above *)
-Theorem C02_fragb_sound : forall rows, fragb rows = true -> Forall row_ok rows /\ no_given rows /\ starts_with_node rows.
+Theorem C02_fragb_sound : forall rows,
+  fragb rows = true -> Forall row_ok rows /\ Forall reads_same rows /\ no_given rows /\ starts_with_node rows.
 Proof. exact fragb_sound. Qed.
 Print Assumptions C02_fragb_sound.
 
